@@ -1,3 +1,170 @@
-/-! # C15 — property theorems (to be written) -/
+import BddVerif.Lemmas.ExprExport
+import BddVerif.Lemmas.ParserPrint
+import BddVerif.Gen.MacroRules
+/-!
+# C15 — expressions, the `bdd!` macro and Bdd-to-expression export denote the same function
+
+Property theorems about the executable model `B.ExprM` (Model/Expr.lean) of `safe_eval_expression`,
+`eval_expression`, `eval_expression_string` and `to_boolean_expression`, and about the regenerated rule
+table of the `bdd!` macro. Helper lemmas: `Lemmas/ExprEval.lean`, `Lemmas/ExprExport.lean`.
+The operator tables `Gen.and_ … Gen.ite_`, `Gen.notInVarName` and `Gen.macroOps` are regenerated from the
+source on every run.
+-/
 namespace B.Props.C15
+open B B.Parser B.ExprM B.VS
+
+/-- **Evaluation is pointwise.** If `safe_eval_expression` returns a Bdd, its function is the pointwise
+    meaning of the tree, it has the variable count of the set, and it is the canonical array of that function. -/
+theorem eval_expr_spec (vars : List Name) (e : Expr) (r : Arr) (h : evalExpr vars e = some r) :
+    (∀ v, den r v = evalBool e (envOf vars v)) ∧ numVars r = vars.length ∧ Canonical r ∧
+      r = canon vars.length (fun v => evalBool e (envOf vars v)) := by
+  have hs := evalExpr_sem vars e r h
+  refine ⟨hs.den, hs.numVars, ?_, hs.eq⟩
+  rw [hs.eq]
+  exact canon_canonical _ _ hs.dep
+
+/-- two trees with the same meaning evaluate to the identical array -/
+theorem eval_expr_canonical (vars : List Name) (e e' : Expr) (r r' : Arr)
+    (h : evalExpr vars e = some r) (h' : evalExpr vars e' = some r')
+    (hsem : ∀ v, evalBool e (envOf vars v) = evalBool e' (envOf vars v)) : r = r' :=
+  (evalExpr_sem vars e r h).unique (evalExpr_sem vars e' r' h') hsem
+
+/-- **`None` exactly for an unknown name.** -/
+theorem eval_expr_none_iff (vars : List Name) (e : Expr) :
+    evalExpr vars e = none ↔ ∃ s ∈ names e, s ∉ vars := evalExpr_none_iff vars e
+
+/-- `eval_expression` panics exactly when a name is unknown, and otherwise returns what
+    `safe_eval_expression` returns -/
+theorem eval_expression_outcome (vars : List Name) (e : Expr) :
+    ((evalExprO vars e).isPanic = true ↔ ∃ s ∈ names e, s ∉ vars) ∧
+    (∀ r, evalExprO vars e = .ok r ↔ evalExpr vars e = some r) ∧ (evalExprO vars e).isErr = false := by
+  unfold evalExprO
+  cases h : evalExpr vars e with
+  | none =>
+    refine ⟨⟨fun _ => (evalExpr_none_iff vars e).mp h, fun _ => rfl⟩, fun r => by simp, rfl⟩
+  | some r =>
+    refine ⟨⟨fun hp => by simp [Outcome.isPanic] at hp, fun hx => ?_⟩, fun r' => by simp, rfl⟩
+    have := (evalExpr_none_iff vars e).mpr hx
+    rw [h] at this; cases this
+
+/-- `eval_expression_string`: a string of the grammar over known names evaluates to the canonical array of
+    the meaning of its tree; anything else panics (parse error or unknown name) -/
+theorem eval_string_spec (vars : List Name) (s : List Char) (r : Arr) (h : evalStringO vars s = .ok r) :
+    ∃ e, parse s = .ok e ∧ r = canon vars.length (fun v => evalBool e (envOf vars v)) := by
+  unfold evalStringO at h
+  cases hp : parse s with
+  | ok e =>
+    rw [hp] at h
+    refine ⟨e, rfl, ?_⟩
+    have := (eval_expression_outcome vars e).2.1 r
+    exact (eval_expr_spec vars e r (this.mp h)).2.2.2
+  | err m => rw [hp] at h; cases h
+  | panic m => rw [hp] at h; cases h
+
+/-- **Export is correct.** On a reduced array (children before parents, no redundant test, no duplicate
+    node) over distinct names, `to_boolean_expression` reaches none of its panics, the tree denotes the
+    function of the array, and it mentions only names of the set. -/
+theorem to_expr_sem (vars : List Name) (A : Arr) (n : Nat) (hred : Red A n) (hn : vars.length = n)
+    (hnd : vars.Nodup) :
+    ∃ e, toExpr vars A = .ok e ∧ (∀ v, evalBool e (envOf vars v) = den A v) ∧ ∀ s ∈ names e, s ∈ vars :=
+  toExpr_sem hred hn hnd
+
+/-- **Export round trip.** For a canonical Bdd over distinct names, evaluating the exported expression
+    returns the very same array. -/
+theorem to_expr_roundtrip (vars : List Name) (A : Arr) (hc : Canonical A) (hn : vars.length = numVars A)
+    (hnd : vars.Nodup) :
+    ∃ e, toExpr vars A = .ok e ∧ evalExpr vars e = some A := by
+  rcases hc.cases with ⟨hf, _⟩ | ⟨hred, _, _⟩
+  · refine ⟨.const false, ?_, ?_⟩
+    · rw [hf]; simp [toExpr, mkFalse]
+    · conv => rhs; rw [hf]
+      simp [evalExpr, hn]
+  · obtain ⟨e, he, r, hr, hsem⟩ := evalExpr_toExpr hred hn hnd
+    refine ⟨e, he, ?_⟩
+    rw [hr, hsem.eq]
+    exact congrArg some hc.symm
+
+theorem safeNames_of_names {e : Expr} (h : ∀ s ∈ names e, SafeName s) : SafeNames e := by
+  induction e with
+  | const b => trivial
+  | var s => exact h s (by simp [names])
+  | not e ih => exact ih h
+  | and l r ihl ihr | or l r ihl ihr | xor l r ihl ihr | imp l r ihl ihr | iff l r ihl ihr =>
+    exact ⟨ihl (fun s hs => h s (by simp [names, hs])), ihr (fun s hs => h s (by simp [names, hs]))⟩
+  | cond c t e ihc iht ihe =>
+    exact ⟨ihc (fun s hs => h s (by simp [names, hs])), iht (fun s hs => h s (by simp [names, hs])),
+      ihe (fun s hs => h s (by simp [names, hs]))⟩
+
+/-- **Export round trip through text.** With parser-safe names, printing the export, parsing the text and
+    evaluating it (`eval_expression_string(&format!("{}", b.to_boolean_expression(vars)))`) returns the
+    very same array as well. -/
+theorem to_expr_roundtrip_text (vars : List Name) (A : Arr) (hc : Canonical A) (hn : vars.length = numVars A)
+    (hnd : vars.Nodup) (hsafe : ∀ s ∈ vars, SafeName s) :
+    ∃ e, toExpr vars A = .ok e ∧ parse (display e) = .ok e ∧ evalStringO vars (display e) = .ok A := by
+  obtain ⟨e, he, hev⟩ := to_expr_roundtrip vars A hc hn hnd
+  have hnames : ∀ s ∈ names e, s ∈ vars := by
+    intro s hs
+    false_or_by_contra
+    rename_i hnot
+    have := (evalExpr_none_iff vars e).mpr ⟨s, hs, hnot⟩
+    rw [hev] at this; cases this
+  have hp := parse_display e (safeNames_of_names (fun s hs => hsafe s (hnames s hs)))
+  refine ⟨e, he, hp, ?_⟩
+  simp [evalStringO, hp, evalExprO, hev]
+
+/-- the tables used by `and`/`or`/`xor`/`imp`/`iff` and `if_then_else` are consistent with the connectives
+    by which `evalBool` interprets the tree (regenerated tables) -/
+theorem connective_tables :
+    Consistent Gen.and_ (fun a b => a && b) ∧ Consistent Gen.or_ (fun a b => a || b) ∧
+    Consistent Gen.xor_ (fun a b => a != b) ∧ Consistent Gen.imp_ (fun a b => !a || b) ∧
+    Consistent Gen.iff_ (fun a b => a == b) ∧ Consistent3 Gen.ite_ (fun a b c => if a then b else c) :=
+  ⟨and_consistent, or_consistent, xor_consistent, imp_consistent, iff_consistent, ite_consistent3⟩
+
+/-- **`bdd!` rules.** Every operator arm of the macro, with and without a variable set, calls the method of
+    the same connective on the recursively expanded operands; the remaining arms are parenthesis
+    elimination and atom resolution (regenerated from `src/_macro_bdd.rs`). -/
+theorem macro_table_ok :
+    Gen.macroOps =
+      [(true, "un", "!", "not"), (true, "bin", "&", "and"), (true, "bin", "|", "or"), (true, "bin", "<=>", "iff"),
+       (true, "bin", "=>", "imp"), (true, "bin", "^", "xor"),
+       (false, "un", "!", "not"), (false, "bin", "&", "and"), (false, "bin", "|", "or"), (false, "bin", "<=>", "iff"),
+       (false, "bin", "=>", "imp"), (false, "bin", "^", "xor")] ∧
+    Gen.macroOther =
+      [(true, "($($e:tt)*)"), (false, "( $($e:tt)* )"), (true, "$bdd:literal"), (true, "$bdd:ident"),
+       (false, "$bdd:ident")] := by
+  decide
+
+/-- the operator → method table is the same in both forms and is the intended one -/
+theorem macro_ops_intended :
+    (Gen.macroOps.filter (·.1)).map (·.2) = (Gen.macroOps.filter (!·.1)).map (·.2) ∧
+    (Gen.macroOps.filter (·.1)).map (fun r => (r.2.2.1, r.2.2.2)) =
+      [("!", "not"), ("&", "and"), ("|", "or"), ("<=>", "iff"), ("=>", "imp"), ("^", "xor")] := by
+  decide
+
+/-! ### non-vacuity -/
+
+def exVars : List Name := [['a'], ['b']]
+/-- `a & b` over two variables -/
+def exAnd : Arr := #[⟨2, 0, 0⟩, ⟨2, 1, 1⟩, ⟨1, 0, 1⟩, ⟨0, 0, 2⟩]
+
+theorem exAnd_canonical : Canonical exAnd := by
+  have h : exAnd = canon 2 (fun v => v 0 && v 1) := by decide
+  rw [h]
+  exact canon_canonical 2 _ (fun v w hvw => by simp [hvw 0 (by omega), hvw 1 (by omega)])
+
+theorem exVars_safe : ∀ s ∈ exVars, SafeName s := by decide
+
+example : ∃ e, toExpr exVars exAnd = .ok e ∧ parse (display e) = .ok e ∧ evalStringO exVars (display e) = .ok exAnd :=
+  to_expr_roundtrip_text exVars exAnd exAnd_canonical rfl (by decide) exVars_safe
+
+/-- the export of `exAnd` is the tree `a & b` (the loop, evaluated) -/
+example : toExpr exVars exAnd = .ok (.and (.var ['a']) (.var ['b'])) := by rfl
+
+/-- an unknown name gives `None` -/
+example : evalExpr exVars (.and (.var ['a']) (.var ['z'])) = none :=
+  (eval_expr_none_iff _ _).mpr ⟨['z'], by simp [names], by decide⟩
+
+/-- the `panic!` arm of the export is reachable on a malformed (non-reduced) array only -/
+example : (toExpr [['a']] #[⟨1, 0, 0⟩, ⟨1, 1, 1⟩, ⟨0, 1, 1⟩]).isPanic = true := by decide
+
 end B.Props.C15
